@@ -21,7 +21,8 @@ FUNCTIONS = ["FmtStr.width_aware_splitlines", "FmtStr._width_aware_splitlines", 
              "Chunk.splitter", "Chunk.__init__"]
 BOUNDS = ("1..3 runs, run length 0..2 (quick) / 0..3 (thorough), total 1..4 (thorough 6), width class of every character "
           "symbolic (3 classes), columns symbolic 2..4 (thorough 2..6); layouts: distinct formatting and characters per run, "
-          "and 'twin' (equal formatting and equal characters, so adjacent runs can be equal)")
+          "and 'twin' (equal formatting and equal characters, so adjacent runs can be equal), 'echo' (equal characters, different formatting); "
+          "interleave: two iterators over one value advanced alternately")
 STUBS = ["width oracle instead of the cwcwidth C extension (validated on the alphabet on every run; replays use cwcwidth)",
          "one representative character per width class (the code inspects characters only through wcwidth/wcswidth)",
          "placement of a zero-width character relative to a line break is not constrained (the statement does not fix it)"]
@@ -42,8 +43,8 @@ def instances(tier, seed):
         if tier == "quick":
             lens = [t for t in lens if sum(t) < 4 or t in ((2, 2), (1, 2, 1), (2, 0, 2), (2, 1, 1))]
         for lt in lens:
-            for layout in ("distinct", "twin"):
-                if layout == "twin" and (K == 1 or (tier == "quick" and sum(lt) > 3)):
+            for layout in ("distinct", "twin", "echo"):
+                if layout in ("twin", "echo") and (K == 1 or (tier == "quick" and sum(lt) > 3)):
                     continue
                 parts = [None] if sum(lt) < 4 else [0, 1, 2]
                 for part in parts:
@@ -52,6 +53,10 @@ def instances(tier, seed):
                                 "params": {"K": K, "lens": list(lt), "layout": layout, "part": part, "cmax": cmax}})
     # long runs (a run that starts mid-line and wraps more than once): all narrow, or one double-width character at a
     # position chosen by the solver
+    # two line iterators over the same value, consumed alternately (each must still give its own lines)
+    for lt in ((2, 1), (1, 2), (2, 2), (1, 1, 1)):
+        out.append({"name": "inter-%s" % "".join(map(str, lt)), "fn": "split", "timeout": T, "cost": sum(lt) ** 2,
+                    "params": {"K": len(lt), "lens": list(lt), "layout": "distinct", "part": None, "cmax": cmax, "interleave": True}})
     for lt in ((1, 5), (1, 6), (2, 5), (1, 7), (3, 4), (1, 1, 5), (2, 6)):
         for wide in (False, True):
             out.append({"name": "long-%s-%s" % ("".join(map(str, lt)), "wide" if wide else "narrow"), "fn": "split_long", "timeout": T, "cost": 6,
@@ -87,7 +92,7 @@ def _texts_from(ks, params):
         t = ""
         for _ in range(ln):
             k = ks[pos]
-            t += TWIN[k] if params["layout"] == "twin" else REPS[k][pos]
+            t += TWIN[k] if params["layout"] in ("twin", "echo") else REPS[k][pos]
             pos += 1
         ts.append(t)
     return ts
@@ -130,6 +135,26 @@ def judge(lines_cells, lines_w, cs, ws, columns):
     return flat == want
 
 
+def _lines(f, columns):
+    """the lines for `columns`; in the interleave instances a second iterator (columns + 1) over the same value is advanced
+    in lock step and its lines are thrown away"""
+    if not P.get("interleave"):
+        return list(f.width_aware_splitlines(columns))
+    it1 = f.width_aware_splitlines(columns)
+    it2 = f.width_aware_splitlines(columns + 1)
+    out = []
+    while True:
+        try:
+            out.append(next(it1))
+        except StopIteration:
+            break
+        try:
+            next(it2)
+        except StopIteration:
+            pass
+    return out
+
+
 def split(k0: int, k1: int, k2: int, k3: int, k4: int, k5: int, columns: int) -> bool:
     """
     pre: _kpre([k0, k1, k2, k3, k4, k5])
@@ -142,7 +167,7 @@ def split(k0: int, k1: int, k2: int, k3: int, k4: int, k5: int, columns: int) ->
     f = _build(ts, P)
     cs = [(c, disp(ch.atts)) for ch in f.chunks for c in ch.s]
     ws = [widths.wcwidth(c) for c, _ in cs]
-    lines = list(f.width_aware_splitlines(columns))
+    lines = _lines(f, columns)
     lc = [[(c, disp(ch.atts)) for ch in ln.chunks for c in ch.s] for ln in lines]
     lw = [sum(widths.wcwidth(c) for c, _ in l) for l in lc]
     ok = judge(lc, lw, cs, ws, columns)
@@ -206,9 +231,11 @@ def concrete(fn, params, args):
     f = _build(ts, params)
     cs = cells(f)
     ws = [cwcwidth.wcwidth(c) for c, _ in cs]
-    call = "list(%r .width_aware_splitlines(%d))" % (f, columns)
+    call = "list(%r .width_aware_splitlines(%d))" % (f, columns) + (" [a second iterator for %d columns advanced alternately]" % (columns + 1) if params.get("interleave") else "")
     try:
-        lines = list(f.width_aware_splitlines(columns))
+        P.clear()
+        P.update(params)
+        lines = _lines(f, columns)
     except Exception as ex:
         return {"ok": False, "observed": "raised %r" % (ex,), "expected": "lines", "call": call}
     lc = [cells(l) for l in lines]
